@@ -288,7 +288,21 @@ fn fam_adversarial(o: &mut Out, quick: bool, _rng: &mut Rng) {
                 c.budget = Some(if quick { 300_000 } else { 2_000_000 });
                 c.tags = vec![tag.to_string(), if ms.is_some() { "finite_budget".into() } else { "default_budget".into() }];
                 if !quick && ms.is_none() { c.dense = true; }
-                o.run(c);
+                o.run(c.clone());
+                // the first step is cut to land on xend (first_step and max_step larger than the interval)
+                if ms.is_none() && m != "RK4" && (*tag == "nan_after" || *tag == "inf_after" || *tag == "blowup_y2") {
+                    let mut c2 = c.clone();
+                    let span = xend - x0;
+                    c2.xend = x0 + span * if *tag == "blowup_y2" { 1.0 } else { 0.6 };
+                    c2.first_step = Some(span * 4.0);
+                    c2.max_step = Some(f64::INFINITY);
+                    c2.tags = vec![tag.to_string(), "first_step>span+max_step_inf".into()];
+                    o.run(c2);
+                    let mut c3 = c.clone();
+                    c3.t_eval = Some(linspace(*x0, *xend, 9));
+                    c3.tags = vec![tag.to_string(), "t_eval".into()];
+                    o.run(c3);
+                }
             }
         }
     }
@@ -621,13 +635,13 @@ fn fam_symmetry(o: &mut Out, quick: bool, rng: &mut Rng) {
 // ----------------------------------------------------------------------------------------- storage
 /// C15: mass / Jacobian storage and the absence of a mass matrix do not change the trajectory.
 fn fam_storage(o: &mut Out, quick: bool, rng: &mut Rng) {
-    let probs = vec![Problem::new("chain4", 60.0), Problem::new("lin3", 0.0), Problem::new("robertson", 0.0), Problem::new("vdp", 10.0), Problem::new("decay", 3.0), Problem::new("lin2", 0.0)];
-    let ncase = if quick { 6 } else { 40 };
+    let probs = vec![Problem::new("cascade4", 8.0), Problem::new("chain4", 60.0), Problem::new("lin3", 0.0), Problem::new("robertson", 0.0), Problem::new("vdp", 10.0), Problem::new("decay", 3.0), Problem::new("lin2", 0.0)];
+    let ncase = if quick { 7 } else { 42 };
     for ci in 0..ncase {
         let p = probs[ci % probs.len()].clone();
         let mut p = p;
         if ci >= probs.len() && p.base_dim() <= 2 { p.copies = 1 + rng.below(3); }
-        let xend = if p.kind == "robertson" { 40.0 } else if p.kind == "chain4" { 6.0 } else { 1.0 };
+        let xend = if p.kind == "robertson" { 40.0 } else if p.kind == "chain4" { 6.0 } else if p.kind == "cascade4" { 30.0 } else { 1.0 };
         for m in ["RADAU", "BDF"] {
             let mut c = base(m, p.clone(), 0.0, xend);
             c.jac = "user".into();
